@@ -31,7 +31,7 @@ def run_one(pid, m):
                 return m["name"], "BROKEN-MUTANT", f"pattern occurs {s.count(ed['old'])} times in {ed['file']}"
             open(p, "w").write(s.replace(ed["old"], ed["new"]))
         env = dict(os.environ, PYVC_REPO=tmp, PYVC_WORK=os.path.join(tmp, ".work"), PYVC_JOBS=os.environ.get("PYVC_MJOBS", "4"))
-        r = subprocess.run([os.path.join(VERIF, "check"), pid], capture_output=True, text=True, env=env, timeout=1800)
+        r = subprocess.run([os.path.join(VERIF, "check"), pid] + (["--tier", m["tier"]] if m.get("tier") else []), capture_output=True, text=True, env=env, timeout=1800)
         out = r.stdout + r.stderr
         expect = m.get("expect", "")
         want_exit = m.get("exit", 0 if expect == "green" else 1)
